@@ -184,7 +184,7 @@ pub fn seeds_for(name: &str) -> Vec<Vec<u8>> {
         "AuthenticatorData::from_slice" => {
             let mut v = vec![];
             for (att, ext) in [(None, 0u8), (Some((1u8, 16usize)), 1), (Some((0, 64)), 3), (None, 3)] {
-                let c = super::c12::Case { rp: 1, counter: 2, flags: 5, assign_flags: true, attested: att, ext, depth: 0 };
+                let c = super::c12::Case { rp: 1, counter: 2, flags: 5, assign_flags: true, attested: att, ext, depth: 0, ext_len: None };
                 if let Ok(b) = super::c12::encode_public(&c) {
                     v.push(b);
                 }
@@ -830,6 +830,148 @@ fn cose_struct_sweep(stats: &mut Stats) {
     }
 }
 
+/// Key kinds.  CBOR lets any data item be a map key; the decoders use derived (de)serialisers plus
+/// hand-written code that sorts, compares or looks members up, and such code has one behaviour per
+/// *kind* of key (floats - NaN in particular - do not order, containers do not hash).  For every
+/// CBOR decoder's richest seed and every map in it (top level and nested), and for authenticator
+/// data with the ED flag, every ordered pair of keys from the menu below is added (in front and at
+/// the end): well-formed input throughout, so the decoder must return (Ok or Err), never panic.
+fn key_menu() -> Vec<(&'static str, Cbor)> {
+    vec![
+        ("0", Cbor::Integer(0.into())),
+        ("-1", Cbor::Integer((-1).into())),
+        ("24", Cbor::Integer(24.into())),
+        ("u64max", Cbor::Integer(u64::MAX.into())),
+        ("i64min", Cbor::Integer(i64::MIN.into())),
+        ("text", Cbor::Text("a".into())),
+        ("empty-text", Cbor::Text(String::new())),
+        ("bytes", Cbor::Bytes(vec![1])),
+        ("empty-bytes", Cbor::Bytes(vec![])),
+        ("1.0", Cbor::Float(1.0)),
+        ("NaN", Cbor::Float(f64::NAN)),
+        ("-0.0", Cbor::Float(-0.0)),
+        ("inf", Cbor::Float(f64::INFINITY)),
+        ("true", Cbor::Bool(true)),
+        ("false", Cbor::Bool(false)),
+        ("null", Cbor::Null),
+        ("array", Cbor::Array(vec![])),
+        ("map", Cbor::Map(vec![])),
+        ("tag", Cbor::Tag(1, Box::new(Cbor::Integer(0.into())))),
+    ]
+}
+fn count_maps(v: &Cbor) -> usize {
+    match v {
+        Cbor::Map(es) => 1 + es.iter().map(|(_, x)| count_maps(x)).sum::<usize>(),
+        Cbor::Array(a) => a.iter().map(count_maps).sum(),
+        Cbor::Tag(_, b) => count_maps(b),
+        _ => 0,
+    }
+}
+/// add the two entries to the `target`-th map (pre-order) of `v`
+fn add_keys(v: &mut Cbor, target: usize, seen: &mut usize, k1: &Cbor, k2: &Cbor, front: bool) {
+    match v {
+        Cbor::Map(es) => {
+            if *seen == target {
+                let extra = vec![(k1.clone(), Cbor::Integer(0.into())), (k2.clone(), Cbor::Integer(0.into()))];
+                if front {
+                    es.splice(0..0, extra);
+                } else {
+                    es.extend(extra);
+                }
+                *seen += 1;
+                return;
+            }
+            *seen += 1;
+            for (_, x) in es.iter_mut() {
+                add_keys(x, target, seen, k1, k2, front);
+            }
+        }
+        Cbor::Array(a) => {
+            for x in a.iter_mut() {
+                add_keys(x, target, seen, k1, k2, front);
+            }
+        }
+        Cbor::Tag(_, b) => add_keys(b, target, seen, k1, k2, front),
+        _ => {}
+    }
+}
+fn key_kinds(threads: usize, only: Option<&Value>) -> Stats {
+    let menu = key_menu();
+    // (decoder, seed value or authData prefix)
+    let mut jobs: Vec<(String, usize, usize, usize, bool)> = vec![];
+    let decs = decoders();
+    let mut seeds: Vec<(String, Option<Cbor>, Vec<u8>)> = vec![];
+    for d in &decs {
+        if d.kind == Kind::Cbor {
+            if let Some(seed) = seeds_for(d.name).into_iter().next() {
+                if let Ok(v) = ciborium::de::from_reader::<Cbor, _>(&seed[..]) {
+                    if count_maps(&v) > 0 {
+                        seeds.push((d.name.to_string(), Some(v), vec![]));
+                    }
+                }
+            }
+        }
+    }
+    // authenticator data: header with ED (and once with AT + ED), followed by the extension map
+    for (att, label) in [(None, "AuthenticatorData::from_slice(ED)"), (Some((1u8, 16usize)), "AuthenticatorData::from_slice(AT+ED)")] {
+        let c = super::c12::Case { rp: 1, counter: 2, flags: 5, assign_flags: true, attested: att, ext: 0, depth: 0, ext_len: None };
+        if let Ok(mut b) = super::c12::encode_public(&c) {
+            b[32] |= 0x80;
+            seeds.push((label.to_string(), None, b));
+        }
+    }
+    for (si, (_, v, _)) in seeds.iter().enumerate() {
+        let maps = v.as_ref().map_or(1, count_maps);
+        for node in 0..maps {
+            for a in 0..menu.len() {
+                for front in [false, true] {
+                    jobs.push((String::new(), si, node, a, front));
+                }
+            }
+        }
+    }
+    par::sweep_cases(&jobs, threads, |(_, si, node, a, front), st| {
+        let (name, seed, prefix) = &seeds[*si];
+        for (b, (bn, k2)) in menu.iter().enumerate() {
+            let (an, k1) = &menu[*a];
+            let case = json!({"key_kinds": {"decoder": name, "map": node, "first": an, "second": bn, "front": front}});
+            if let Some(o) = only {
+                if *o != case {
+                    continue;
+                }
+            }
+            let _ = b;
+            let bytes = match seed {
+                Some(v) => {
+                    let mut v = v.clone();
+                    add_keys(&mut v, *node, &mut 0, k1, k2, *front);
+                    let mut out = vec![];
+                    if ciborium::ser::into_writer(&v, &mut out).is_err() {
+                        continue;
+                    }
+                    out
+                }
+                None => {
+                    let m = if *front { Cbor::Map(vec![(k1.clone(), Cbor::Integer(0.into())), (k2.clone(), Cbor::Integer(0.into()))]) } else { Cbor::Map(vec![(Cbor::Text("hmac-secret".into()), Cbor::Bool(true)), (k1.clone(), Cbor::Integer(0.into())), (k2.clone(), Cbor::Integer(0.into()))]) };
+                    let mut out = prefix.clone();
+                    if ciborium::ser::into_writer(&m, &mut out).is_err() {
+                        continue;
+                    }
+                    out
+                }
+            };
+            st.case(&case.to_string(), true, "key-kinds");
+            let dec_name = name.split('(').next().unwrap_or(name);
+            let run = decs.iter().find(|d| d.name == dec_name || d.name == name.as_str()).map(|d| d.run);
+            if let Some(run) = run {
+                if let Err(p) = par::catch(|| run(&bytes)) {
+                    st.finding(Finding::new(format!("decoder={dec_name}/site={}/kind={}", site_file(&p), panic_class(&p)), format!("panicked on well-formed input whose map has the keys {an} and {bn} added ({} bytes): {p}", bytes.len()), case));
+                }
+            }
+        }
+    })
+}
+
 /// Every length of well-formed base64 / base64url text (with and without padding) up to `max`
 /// decoded bytes, through the three text entry points and a JSON `Bytes` member: a decoder with a
 /// size-dependent fast path must not have a boundary at which it panics.
@@ -888,6 +1030,9 @@ pub fn run(ctx: &Ctx) -> Result<Run, String> {
             }
         }
     }
+    let kk = key_kinds(ctx.threads, None);
+    stats.count("key_kind_cases", kk.evaluations);
+    stats.merge(kk);
     let bl = base64_lengths(ctx.tier.pick(4200, 20_000), ctx.threads);
     stats.count("base64_length_cases", bl.evaluations);
     stats.merge(bl);
@@ -904,7 +1049,7 @@ pub fn run(ctx: &Ctx) -> Result<Run, String> {
     let ndec = sp.decs.len();
     let mut run = Run::from_stats(
         "exploration",
-        "for each of 28 public decoders (CTAP2 CBOR messages, authenticator data, WebAuthn JSON, base64, U2F raw messages, COSE-key converter, fingerprints, asset links, RP-ID verification, public-suffix lookups): (1) all byte strings up to length 2 (3 thorough) / all strings over an 8-symbol alphabet up to length 5 (7 thorough); (2) every single deviation of valid seed encodings of every message type: truncation at every position, every byte value at every position (CBOR/binary; a 17-symbol menu for JSON/text), and splices at every position of CBOR heads of every major type with declared lengths 2^8..2^64-1 / indefinite, 300- and 100000-deep nesting, JSON structure/number/escape fragments, long and dotted labels (thorough: all pairs of byte-level deviations on short seeds); run in isolated worker processes with a counting allocator (single request > 4 MiB + 32 x input length, or > 256 MiB in total = out of proportion; > 1 GiB refused), 8 MiB stack, per-case watchdog; (2c) well-formed base64 / base64url text, padded or not, of every decoded length 0..4200 (thorough 20000) through Bytes::try_from, try_from_base64url and a JSON Bytes member (must decode to the bytes; no panic at any size boundary); (2b) COSE keys built as structs (0..2 entries per coordinate from a menu of lengths and types, three label orders, repeated labels included) given to the converter directly; (4) scaling families: 14 well-formed message shapes whose collection (PRF per-credential map, allow/exclude list, parameter list, unknown members, COSE parameters, JSON lists and maps, base64 text) grows to 256, 1024, 4096, 16384 (thorough: 65536) elements, with ids/keys that differ only at the front, only at the end or only in the middle, decoded in isolated workers: 4x the elements may not cost more than 9x the CPU time (judged once the larger run exceeds 10 ms, confirmed by a second measurement) nor an allocation out of proportion; (3b) CTAPHID with 1..300 (4096) channels transmitting at once; (3) CTAPHID: BFS over packet sequences on the real ChannelHandler (alphabet: 2 channels x 8 init heads + 4 continuation sequence numbers x 13 packet sizes), deduplicated on the hook snapshot. Non-trivial = distinct non-empty input",
+        "for each of 28 public decoders (CTAP2 CBOR messages, authenticator data, WebAuthn JSON, base64, U2F raw messages, COSE-key converter, fingerprints, asset links, RP-ID verification, public-suffix lookups): (1) all byte strings up to length 2 (3 thorough) / all strings over an 8-symbol alphabet up to length 5 (7 thorough); (2) every single deviation of valid seed encodings of every message type: truncation at every position, every byte value at every position (CBOR/binary; a 17-symbol menu for JSON/text), and splices at every position of CBOR heads of every major type with declared lengths 2^8..2^64-1 / indefinite, 300- and 100000-deep nesting, JSON structure/number/escape fragments, long and dotted labels (thorough: all pairs of byte-level deviations on short seeds); run in isolated worker processes with a counting allocator (single request > 4 MiB + 32 x input length, or > 256 MiB in total = out of proportion; > 1 GiB refused), 8 MiB stack, per-case watchdog; (2c) well-formed base64 / base64url text, padded or not, of every decoded length 0..4200 (thorough 20000) through Bytes::try_from, try_from_base64url and a JSON Bytes member (must decode to the bytes; no panic at any size boundary); (2d) key kinds: for the richest seed of every CBOR decoder and every map in it (top level and nested), and for authenticator data with ED resp. AT+ED, every ordered pair of added keys from 19 kinds (small/large/negative integers, text, bytes, floats incl. NaN, -0.0 and infinity, booleans, null, empty array, empty map, tag), in front and at the end - well-formed input, the decoder must return; (2b) COSE keys built as structs (0..2 entries per coordinate from a menu of lengths and types, three label orders, repeated labels included) given to the converter directly; (4) scaling families: 14 well-formed message shapes whose collection (PRF per-credential map, allow/exclude list, parameter list, unknown members, COSE parameters, JSON lists and maps, base64 text) grows to 256, 1024, 4096, 16384 (thorough: 65536) elements, with ids/keys that differ only at the front, only at the end or only in the middle, decoded in isolated workers: 4x the elements may not cost more than 9x the CPU time (judged once the larger run exceeds 10 ms, confirmed by a second measurement) nor an allocation out of proportion; (3b) CTAPHID with 1..300 (4096) channels transmitting at once; (3) CTAPHID: BFS over packet sequences on the real ChannelHandler (alphabet: 2 channels x 8 init heads + 4 continuation sequence numbers x 13 packet sizes), deduplicated on the hook snapshot. Non-trivial = distinct non-empty input",
         true,
         stats,
     );
@@ -941,6 +1086,10 @@ pub fn replay(_ctx: &Ctx, case: &Value) -> Result<Vec<Finding>, String> {
         let n = b["decoded_bytes"].as_u64().unwrap_or(0) as usize;
         let st = base64_lengths_one(n);
         return Ok(st.findings.into_values().map(|x| x.0).filter(|f| f.case == *case).collect());
+    }
+    if case.get("key_kinds").is_some() {
+        let st = key_kinds(1, Some(case));
+        return Ok(st.findings.into_values().map(|x| x.0).collect());
     }
     if case.get("cose_struct").is_some() {
         let mut st = Stats::new();
